@@ -166,6 +166,43 @@ CHECKS = {
          "series are not enumerated yet. Heating values 10 / 20 kWh/kg by design.",
     technique="TLA+ coupling model (PPMulti/GenMulti) model-checked with TLC + configurations replayed into run_control on multinets + trace validation (Trace_Multi)"),
 }
+
+# ---- additions of session 3 (appended to the registry above) ----
+def _add(pid, text=None, note=None, tech=None, note_replace=None):
+    c = CHECKS[pid]
+    if text:
+        c["text"] = c["text"] + " " + text
+    if note_replace:
+        c["note"] = c["note"].replace(*note_replace)
+    if note:
+        c["note"] = c["note"] + " " + note
+    if tech:
+        c["technique"] = c["technique"] + "; " + tech
+
+
+FAMILY_OLD = ("nikuradse friction, pipes / valves / heat exchangers, trees + chords, up to 6 junctions sampled, <=3 junctions exhaustive in the model); gases, colebrook / swamee-jain and library fluids are not yet covered by the exact reference (limits in DESIGN.md section 6).")
+FAMILY_NEW = ("the three friction models nikuradse / colebrook / swamee-jain with the roughness of each pipe designed for its flow, pipes / valves / heat exchangers / pumps, trees + chords, up to 6 junctions sampled, <=3 junctions exhaustive in the model) and a designed gas family (K = 1); library fluids are covered relationally only (limits in DESIGN.md section 6).")
+for _p in ("C01", "C02", "C03", "C06", "C07", "C08", "C09"):
+    _add(_p, note_replace=(FAMILY_OLD, FAMILY_NEW))
+_add("C01", text="(c) every time step of transient time series (run_timeseries(transient=True), net projected when the output writer is called) goes through the same balance clauses.")
+_add("C03", text="Compressors between junctions of equal (non-zero) height produce their absolute pressure ratio (ambient pressures from the barometric oracle); feeder-dense nets (up to four external grids in every table order).")
+_add("C05", text="Stage limits: the iteration limit a stage ran with is the resolved option of that stage (stage-specific starvation in the history alphabet); a residual vector holding NaN is never within tolerance (hook field); nets whose thermal problem has no solution must fail in every thermal mode.")
+_add("C07", text="Every run with a matrix option is also compared (outcome class, result difference class) with the same call without the option on a fresh net; nets include one with an open valve and a flow controller.")
+_add("C10", text="Temperature-dependent heat capacity: PPRefMix states mixing and exchanger duties as enthalpy balances in two-limb integer arithmetic for a designed linear-cp liquid; 22k scenarios in the model, a seeded sample solved in sequential / bidirectional mode (Trace_Mix). Thick-walled pipes (outer diameter) mixed with pipes without an outer diameter in the designed family.",
+     note_replace=("Constant heat capacity only: the mean-cp weighting of the mixing rule with temperature-dependent cp (DESIGN F4) is outside the exact reference. ", "The cooling law of pipes is checked with constant heat capacity only (no closed form otherwise); mixing and duties also with a linear heat capacity. "),
+     tech="enthalpy-balance reference PPRefMix/GenMix + Trace_Mix")
+_add("C11", text="Heat-exchanger duties with a linear heat capacity (PPRefMix / Trace_Mix: m (h(T_in) - h(T_out)) = q); loops with a circulation pump of type p.", tech="PPRefMix/Trace_Mix")
+_add("C12", text="A structural edit that gives a row another index label (results must follow the labels).")
+_add("C13", text="Transient series (transient=True) are a dimension of MC_TS: the hydraulic part of every step equals the stand-alone calculation, a step depends on the past only (the series over the profile without its last step reproduces the first steps: InvPrefix), equal inputs give equal hydraulic results.",
+     note_replace=("Subsets / reorderings of the time steps and an additional in-net controller are not enumerated yet.", "Transient series on two heat nets with the constant-property liquid. Subsets / reorderings of the time steps are not enumerated yet."))
+_add("C16", text="The standard-type library is the state machine MC_StdType (create / delete type, create_pipe with per-pipe overrides, create_pipe_from_parameters, change_std_type); all 2-call and simulated 4-call histories are replayed (Trace_StdType): refusals atomic, row = type parameters, creation from a type = creation from its parameters.",
+     note_replace=("Not covered yet: std-type vs parameter creation; invalid-argument", "Invalid-argument"), tech="MC_StdType/Trace_StdType")
+_add("C17", text="create_continuous_elements_index: the order in which the set of table names is walked is the nondeterminism of MC_ContAll (all orders, exhaustive); the same calls are replayed in interpreters started with PYTHONHASHSEED 0..7 (thorough 0..39).", tech="MC_ContAll + hash-seed schedules")
+_add("C19", text="The standard-type library state machine (MC_StdType / Trace_StdType): the library changes by library calls only, parameters reach created / re-typed pipes unchanged.", tech="MC_StdType/Trace_StdType")
+_add("C20", text="The control loop itself is the TLA+ machine MC_MultiCtl (transcribed from run_control / pandapower's control_implementation: levels, orders, control steps, relevant nets, calculations; invariants: every member net ends with the results of its final inputs, every controller wrote once, a coupling whose source's writers precede it converted the final input); all configurations of up to three controllers (three couplings, two in-net setters) x two levels x three orders over three member nets are run through run_control (Trace_MultiCtl).",
+     note_replace=("One coupling controller per multinet (plus an optional level-0 setter); several coupled controllers with permuted orders and coupled time series are not enumerated yet.", "Coupled time series are not enumerated."),
+     tech="control-loop machine PPMultiCtl/MC_MultiCtl + Trace_MultiCtl")
+
 NA_REASON = "check not built yet in this round (work in progress; see DESIGN.md section 5 for the planned decision procedure)"
 
 man = {
